@@ -336,7 +336,139 @@ def _labels(case, v):
             "bad:" + str(case["badhost"]), "n:%d" % len(case["nodes"])] + (["client-cert"] if case.get("identity") else [])
 
 
+# ------------------------------------------------------------------ the command-line client
+
+
+def enum_cli(tier):
+    for verbose in (False, True):
+        for budget in (0, 1, 3):
+            for extra in (0, 1, 4):
+                yield {"verbose": verbose, "budget": budget, "chain": budget + extra}
+    for verbose in (False, True):
+        yield {"verbose": verbose, "budget": None, "chain": 2}    # the default budget, a short chain
+        yield {"verbose": verbose, "budget": None, "chain": 40}   # far beyond any default
+
+
+def run_cli(case: dict):
+    """`python -m nauyaca get [--verbose] [--max-redirects N] URL` in a child process against a live loopback peer whose
+    /hopK redirects to /hopK+1 for K < chain and answers 20 after that. Bounded connections; an over-long chain is an
+    error (non-zero exit, the last redirect is not presented as the result); a chain within the budget is followed."""
+    import os
+    import socket
+    import ssl
+    import subprocess
+    import sys
+    import threading
+
+    from vlib import certs, scratch
+    from vlib.core import ok as _ok, viol as _viol
+
+    home = scratch.subdir("c16-cli-home")
+    c = certs.get("rsa-a")
+    sctx = ssl.SSLContext(ssl.PROTOCOL_TLS_SERVER)
+    sctx.load_cert_chain(c.cert_path, c.key_path)
+    lsock = socket.socket()
+    lsock.bind(("127.0.0.1", 0))
+    lsock.listen(16)
+    port = lsock.getsockname()[1]
+    stop = threading.Event()
+    seen = []
+    L = case["chain"]
+
+    def serve():
+        lsock.settimeout(0.2)
+        while not stop.is_set():
+            try:
+                raw, _ = lsock.accept()
+            except OSError:
+                continue
+            try:
+                raw.settimeout(3)
+                conn = sctx.wrap_socket(raw, server_side=True)
+                try:
+                    d = b""
+                    while b"\r\n" not in d and len(d) < 1100:
+                        x = conn.recv(2048)
+                        if not x:
+                            break
+                        d += x
+                    if b"\r\n" in d:
+                        line = d.split(b"\r\n", 1)[0].decode("utf-8", "replace")
+                        seen.append(line)
+                        try:
+                            k = int(line.rsplit("/hop", 1)[1])
+                        except (IndexError, ValueError):
+                            k = None
+                        if k is None:
+                            conn.sendall(b"51 no such hop\r\n")
+                        elif k < L:
+                            conn.sendall(f"30 gemini://127.0.0.1:{port}/hop{k + 1}\r\n".encode())
+                        else:
+                            conn.sendall(b"20 text/gemini\r\nFINAL-CONTENT-OF-THE-CHAIN\n")
+                    try:
+                        conn.unwrap()
+                    except (OSError, ssl.SSLError):
+                        pass
+                except OSError:
+                    pass
+                finally:
+                    try:
+                        conn.close()
+                    except OSError:
+                        pass
+            except (ssl.SSLError, OSError):
+                raw.close()
+
+    th = threading.Thread(target=serve, daemon=True)
+    th.start()
+    try:
+        os.makedirs(os.path.join(home, ".nauyaca"), exist_ok=True)
+        env = dict(os.environ, HOME=home, NO_COLOR="1", TERM="dumb")
+        args = ["get"] + (["--verbose"] if case["verbose"] else []) + \
+               (["--max-redirects", str(case["budget"])] if case["budget"] is not None else []) + [f"gemini://127.0.0.1:{port}/hop0"]
+        try:
+            pr = subprocess.run([sys.executable, "-m", "nauyaca", *args], env=env, capture_output=True, text=True, timeout=120)
+            rc, out = pr.returncode, pr.stdout + pr.stderr
+        except subprocess.TimeoutExpired:
+            rc, out = "timeout", ""
+    finally:
+        stop.set()
+        th.join(2)
+        lsock.close()
+        import shutil
+
+        shutil.rmtree(home, ignore_errors=True)
+    info = {"exit": rc, "connections": len(seen), "out": out[-120:]}
+    if rc == "timeout":
+        return _viol("call-did-not-terminate", f"`nauyaca {' '.join(args[:-1])}` still running after 120 s; {len(seen)} connections", **info)
+    if rc == 2 and "Usage" in out:
+        return _ok(note="flag not offered by this command line", **info)
+    if case["budget"] is not None:
+        if len(seen) > case["budget"] + 1:
+            return _viol("more-connections-than-budget", f"`nauyaca {' '.join(args[:-1])}`: {len(seen)} connections for a budget of {case['budget']} redirects", **info)
+        if L > case["budget"]:
+            if rc == 0:
+                return _viol("redirect-limit-not-reported", f"`nauyaca {' '.join(args[:-1])}` on a chain of {L} redirects: exit status 0 "
+                             f"after {len(seen)} connections; output ends {out[-80:]!r}", **info)
+            if "FINAL-CONTENT-OF-THE-CHAIN" in out:
+                return _viol("followed-beyond-budget", f"final content shown for a chain of {L} with budget {case['budget']}", **info)
+        else:
+            if rc != 0 or "FINAL-CONTENT-OF-THE-CHAIN" not in out:
+                return _viol("short-chain-not-followed", f"`nauyaca {' '.join(args[:-1])}` on a chain of {L} redirects: exit {rc}, output ends {out[-80:]!r}", **info)
+    else:
+        if L >= 40 and (rc == 0 or len(seen) > 40):
+            return _viol("redirect-limit-not-reported", f"default budget, chain of {L}: exit {rc} after {len(seen)} connections", **info)
+        if L <= 2 and (rc != 0 or "FINAL-CONTENT-OF-THE-CHAIN" not in out):
+            return _viol("short-chain-not-followed", f"default budget, chain of {L}: exit {rc}, output ends {out[-80:]!r}", **info)
+    return _ok(**info)
+
+
 LANES = [
+    Lane(name="cli", run_case=run_cli, enumerate=enum_cli, budget={"quick": 1, "thorough": 1},
+         shards={"quick": 11, "thorough": 11}, nontrivial=lambda c, v: c["budget"] is None or c["chain"] > c["budget"],
+         labels=lambda c, v: ["verbose" if c["verbose"] else "plain", "budget:" + str(c["budget"]), "chain:%d" % c["chain"]], exhaustive=True,
+         rule="the command-line client (`nauyaca get`, with and without --verbose) in a child process against a live loopback "
+              "chain of redirects shorter than, equal to and longer than --max-redirects (exhaustive over 22 rows)"),
     Lane(name="revisit", cpu_limit=30.0, run_case=run_case, enumerate=enum_revisit, budget={"quick": 1, "thorough": 1},
          shards={"quick": 8, "thorough": 8}, nontrivial=_nontrivial, labels=_labels, exhaustive=True,
          rule="chains revisiting a host whose certificate changes after its first k connections (enumerated family)"),
